@@ -215,6 +215,15 @@ def run_impl(pystog, case):
         return run_sequence(pystog, case)
     call, args = build_call(pystog, case)
     before = [(a.tobytes(), a.dtype.str, a.shape, a.strides) for a in args]
+    if case.get("xout_col"):
+        # a 2-D column as output grid: whether an implementation accepts it is not this property's business -- only that it leaves
+        # the caller's arrays (contents, type, shape) alone and, where it answers, answers reproducibly
+        try:
+            call()
+        except Exception:
+            mutated = [i for i, (a, b) in enumerate(zip(args, before)) if (a.tobytes(), a.dtype.str, a.shape, a.strides) != b]
+            return {"error": None, "history": None, "kinds": ["f", "f"], "mutated": mutated, "reproducible": True, "same_as_float": True, "out": [],
+                    "not_accepted": True}
     try:
         out = [None if o is None else np.asarray(o) for o in call()]
         err = None
